@@ -277,6 +277,9 @@ def _excluded(site: ast.AST, arg: ast.AST, f: Func) -> Set[str]:
             break
         child = p
         p = getattr(p, "_parent", None)
+    # the two infinities separately: +inf excluded and (-inf excluded or the value is known non-negative)
+    if "posinf" in out and ("neginf" in out or "neg" in out):
+        out.add("inf")
     return out
 
 
@@ -324,6 +327,22 @@ def _cond_excludes(tst: ast.AST, pol: bool, names: Set[str], argtxt: str) -> Set
                     out.add("zero")
                 if isinstance(op, ast.LtE) and not p and r.value >= 0:
                     out |= {"neg", "zero"}
+            # self-comparison: v != v is the NaN test
+            if norm(l) == norm(r):
+                if (isinstance(op, ast.NotEq) and not p) or (isinstance(op, ast.Eq) and p):
+                    out.add("nan")
+            # comparison with an infinity constant
+            rt = norm(r).replace(" ", "")
+            if rt in ("math.inf", "float('inf')", "inf"):
+                if (isinstance(op, ast.Eq) and not p) or (isinstance(op, ast.NotEq) and p) or (isinstance(op, ast.Lt) and p):
+                    out.add("posinf")
+            if rt in ("-math.inf", "float('-inf')", "-inf"):
+                if (isinstance(op, ast.Eq) and not p) or (isinstance(op, ast.NotEq) and p) or (isinstance(op, ast.Gt) and p):
+                    out.add("neginf")
+            if isinstance(op, (ast.In, ast.NotIn)) and isinstance(r, (ast.Tuple, ast.List, ast.Set)):
+                els = {norm(x).replace(" ", "") for x in r.elts}
+                if {"math.inf", "-math.inf"} <= els and ((isinstance(op, ast.In) and not p) or (isinstance(op, ast.NotIn) and p)):
+                    out.add("inf")
             # chained range test 0 <= v <= K true: finite
         if isinstance(a, ast.Compare) and len(a.ops) == 2 and p:
             if all(isinstance(o, (ast.Lt, ast.LtE)) for o in a.ops) and isinstance(a.left, ast.Constant):
